@@ -41,7 +41,7 @@ fn pk_from_c5(p: &c5::Packet) -> Pk {
         },
         c5::Packet::PubAck(a) => Pk::PubAck(a.pkid, if a.reason == c5::PubAckReason::Success { 0 } else { 0x80 }),
         c5::Packet::PubRec(a) => Pk::PubRec(a.pkid, if a.reason == c5::PubRecReason::Success { 0 } else { 0x80 }),
-        c5::Packet::PubRel(a) => Pk::PubRel(a.pkid, 0),
+        c5::Packet::PubRel(a) => Pk::PubRel(a.pkid, if a.reason == c5::PubRelReason::Success { 0 } else { 0x92 }),
         c5::Packet::PubComp(a) => Pk::PubComp(a.pkid, 0),
         c5::Packet::Subscribe(s) => Pk::Subscribe(s.pkid),
         c5::Packet::SubAck(s) => Pk::SubAck(s.pkid),
@@ -212,7 +212,13 @@ impl Proto for V5 {
                 }
                 c5::Packet::PubRec(a)
             }
-            Pk::PubRel(i, _) => c5::Packet::PubRel(c5::PubRel::new(*i, None)),
+            Pk::PubRel(i, code) => {
+                let mut r = c5::PubRel::new(*i, None);
+                if *code >= 0x80 {
+                    r.reason = c5::PubRelReason::PacketIdentifierNotFound;
+                }
+                c5::Packet::PubRel(r)
+            }
             Pk::PubComp(i, _) => c5::Packet::PubComp(c5::PubComp::new(*i, None)),
             Pk::SubAck(i) => c5::Packet::SubAck(c5::SubAck {
                 pkid: *i,
